@@ -1234,23 +1234,36 @@ pub struct ScriptInner {
 pub struct ScriptedStream {
     pub inner: Arc<StdMutex<ScriptInner>>,
     pub drops: Arc<AtomicUsize>,
+    /// the "channel lock" (see `StreamCtl::set_wake_locked`)
+    chan_lock: Arc<vsched::sync::Mutex<()>>,
+    wake_locked: Arc<std::sync::atomic::AtomicBool>,
 }
 
 #[derive(Clone)]
 pub struct StreamCtl {
     pub inner: Arc<StdMutex<ScriptInner>>,
     pub drops: Arc<AtomicUsize>,
+    chan_lock: Arc<vsched::sync::Mutex<()>>,
+    wake_locked: Arc<std::sync::atomic::AtomicBool>,
 }
 
 pub fn scripted_stream(preloaded: &[u32]) -> (ScriptedStream, StreamCtl) {
     let inner = Arc::new(StdMutex::new(ScriptInner { items: preloaded.iter().cloned().collect(), ended: false, waker: None, polls: 0, eager_waker: false, polls_after_end: 0, returned_end: false }));
     let drops = Arc::new(AtomicUsize::new(0));
-    (ScriptedStream { inner: inner.clone(), drops: drops.clone() }, StreamCtl { inner, drops })
+    let chan_lock = Arc::new(vsched::sync::Mutex::new(()));
+    let wake_locked = Arc::new(std::sync::atomic::AtomicBool::new(false));
+    (ScriptedStream { inner: inner.clone(), drops: drops.clone(), chan_lock: chan_lock.clone(), wake_locked: wake_locked.clone() }, StreamCtl { inner, drops, chan_lock, wake_locked })
 }
 
 impl Drop for ScriptedStream {
     fn drop(&mut self) {
-        self.drops.fetch_add(1, AO::SeqCst);
+        if self.wake_locked.load(AO::SeqCst) {
+            // the receiving end of a channel unregisters itself under the channel's lock
+            let _g = self.chan_lock.lock().unwrap();
+            self.drops.fetch_add(1, AO::SeqCst);
+        } else {
+            self.drops.fetch_add(1, AO::SeqCst);
+        }
     }
 }
 
@@ -1279,8 +1292,14 @@ impl futures::Stream for ScriptedStream {
 }
 
 impl StreamCtl {
+    /// From now on the producer side wakes the consumer while holding the channel's lock (the `lock(); ...; waker.wake()`
+    /// pattern), and the stream's destructor takes the same lock
+    pub fn set_wake_locked(&self) {
+        self.wake_locked.store(true, AO::SeqCst);
+    }
     pub fn push(&self, v: u32) {
         vthread::yield_now();
+        let _chan = if self.wake_locked.load(AO::SeqCst) { Some(self.chan_lock.lock().unwrap()) } else { None };
         let w = {
             let mut g = self.inner.lock().unwrap();
             g.items.push_back(v);
